@@ -46,6 +46,13 @@ pub enum Family {
     Vertical,
     CircleThroughOrigin,
     Dyadic { shift: u8 },
+    /// sparse points on a circle through the origin: arc step `xy_mm`, z step `z_mm`
+    /// (one Hough bin, neighbour distance hypot(xy, z) around the 3 cm linkage)
+    Staircase { xy_mm: u8, z_mm: u8 },
+    /// points whose Hough rho sits on a rho-bin edge (to rounding) for theta bin
+    /// `theta_bin` of 230: r = 27.3 cos(alpha) / m for integers m, phi = theta - alpha;
+    /// alpha_class 0: 0, 1: +60 deg, 2: -60 deg, 3: one generated angle per group
+    HoughEdge { theta_bin: u8, alpha_class: u8 },
 }
 
 #[derive(Clone, Debug, PartialEq, Serialize, Deserialize)]
@@ -137,6 +144,41 @@ pub fn points_of(g: &Group) -> Vec<SpacePoint> {
                 .filter(|p| (0.05..=0.25).contains(&p.r.get::<meter>()))
                 .collect()
         }
+        Family::HoughEdge { theta_bin, alpha_class } => {
+            let theta = (theta_bin % 230) as f64 * (2.0 * PI / 230.0);
+            let alpha = match alpha_class % 4 {
+                0 => 0.0,
+                1 => PI / 3.0,
+                2 => -PI / 3.0,
+                _ => 2.4 * unit(s, 3) - 1.2,
+            };
+            let k = 27.3 * alpha.cos();
+            let (m_lo, m_hi) = ((k / 0.25).ceil() as u64, (k / 0.05).floor() as u64);
+            (0..n)
+                .map(|i| {
+                    let m = m_lo + mix(s, 40 + i) % (m_hi - m_lo + 1);
+                    sp((k / m as f64).clamp(0.05, 0.25), theta - alpha, z0 + 0.004 * i as f64)
+                })
+                .collect()
+        }
+        Family::Staircase { xy_mm, z_mm } => {
+            let rho = 0.1 + 0.05 * unit(s, 3);
+            let (cx, cy) = (rho * phi0.cos(), rho * phi0.sin());
+            let da = xy_mm as f64 * 1e-3 / rho;
+            let dz = z_mm as f64 * 1e-3 * if mix(s, 4) & 1 == 0 { 1.0 } else { -1.0 };
+            // start where the circle leaves r = 5 cm
+            let a0 = 2.0 * (0.05 / (2.0 * rho)).asin() + 0.01;
+            (0..n)
+                .map(|i| {
+                    let a = a0 + da * i as f64;
+                    let (x, y) = (cx + rho * (phi0 + PI + a).cos(), cy + rho * (phi0 + PI + a).sin());
+                    // every third step is a little shorter so that links are not all alike
+                    sp_xyz(x, y, z0 * 0.5 + dz * i as f64 * if i % 3 == 0 { 0.97 } else { 1.0 })
+                })
+                .take_while(|p| p.r.get::<meter>() <= 0.25)
+                .filter(|p| p.r.get::<meter>() >= 0.05)
+                .collect()
+        }
         Family::Dyadic { shift } => {
             let q = 2f64.powi(-(shift.clamp(3, 12) as i32));
             (0..n)
@@ -163,7 +205,13 @@ pub fn family() -> impl Strategy<Value = Family> {
         1 => Just(Family::Vertical),
         1 => Just(Family::CircleThroughOrigin),
         1 => (3u8..=12).prop_map(|shift| Family::Dyadic { shift }),
+        1 => staircase(),
+        1 => (0u8..230, 0u8..4).prop_map(|(theta_bin, alpha_class)| Family::HoughEdge { theta_bin, alpha_class }),
     ]
+}
+
+pub fn staircase() -> impl Strategy<Value = Family> {
+    (10u8..=36, prop_oneof![1 => Just(0u8), 4 => 5u8..=36]).prop_map(|(xy_mm, z_mm)| Family::Staircase { xy_mm, z_mm })
 }
 
 pub fn group(max_n: u16) -> impl Strategy<Value = Group> {
